@@ -581,6 +581,13 @@ class _Fn:
                 _fail(st, "unexpected kinds")
             self.env["spec"] = "dv"
             return "let '(s, spec) := p_implements_named s spec_name (p_normalizeargs spec) in"
+        if src == "spec = Implements.named(spec_name, *declared)":
+            if self.env.get("declared") != "list" or self.env.get("spec_name") != "clsref":
+                _fail(st, "unexpected kinds")
+            self.env["spec"] = "dv"
+            return "let '(s, spec) := p_implements_named s spec_name declared in"
+        if src == "spec.declared = declared" and self.env.get("spec") == "dv" and self.env.get("declared") == "list":
+            return "let s := p_set_declared s (p_dv_spec spec) declared in"
         if src == "spec = (spec,)" and self.env.get("spec") == "dv":
             self.env["spec"] = "list"
             return "let spec := (p_dv_old spec) in"
@@ -1044,8 +1051,10 @@ def implementedBy(cls):
     spec_name = _implements_name(cls)
     if spec is not None:
         spec = (spec,)
-        spec = Implements.named(spec_name, *_normalizeargs(spec))
+        declared = tuple(_normalizeargs(spec))
+        spec = Implements.named(spec_name, *declared)
         spec.inherit = None
+        spec.declared = declared
         del cls.__implemented__
     else:
         try:
